@@ -326,7 +326,7 @@ func (s *sess) sets() (run, done, blk, parked []int) {
 
 // observe waits for stability and returns the observation token.
 func (s *sess) observe() string {
-	if !quiesce.Wait(5 * time.Second) {
+	if !quiesce.Wait(30 * time.Second) {
 		_, who := quiesce.Busy()
 		return "timeout(" + strings.ReplaceAll(who, " ", "_") + ")"
 	}
@@ -358,7 +358,7 @@ func capacityOfFreshPool(bound, q int, io bool) int {
 	for i := 0; i < n; i++ {
 		t := s.newTask(i, "")
 		go s.submit(t)
-		quiesce.Wait(5 * time.Second)
+		quiesce.Wait(30 * time.Second)
 	}
 	run, _, _, _ := s.sets()
 	c := len(run)
@@ -367,10 +367,10 @@ func capacityOfFreshPool(bound, q int, io bool) int {
 		for _, id := range run {
 			close(s.tasks[id].gate)
 		}
-		quiesce.Wait(5 * time.Second)
+		quiesce.Wait(30 * time.Second)
 	}
 	s.p.tp.Stop()
-	quiesce.Wait(5 * time.Second)
+	quiesce.Wait(30 * time.Second)
 	freshCap[k] = c
 	return c
 }
@@ -547,7 +547,7 @@ func exec(e *lp.Exec) {
 			for i := 0; i < k; i++ {
 				t := s.newTask(base+i, "")
 				go s.submit(t)
-				quiesce.Wait(5 * time.Second)
+				quiesce.Wait(30 * time.Second)
 			}
 			o := s.observe()
 			run, _, _, _ = s.sets()
@@ -575,7 +575,7 @@ func exec(e *lp.Exec) {
 func (s *sess) finish(lg *capLogger) {
 	e := s.e
 	for round := 0; round < 10000; round++ {
-		quiesce.Wait(5 * time.Second)
+		quiesce.Wait(30 * time.Second)
 		run, _, _, parked := s.sets()
 		if len(run) == 0 && len(parked) == 0 {
 			break
@@ -587,7 +587,7 @@ func (s *sess) finish(lg *capLogger) {
 			close(s.tasks[id].gate)
 		}
 	}
-	if !quiesce.Wait(5 * time.Second) {
+	if !quiesce.Wait(30 * time.Second) {
 		e.Oracle("c19-once", "hang: the pool did not become stable after all tasks were released")
 	}
 	if s.p.bound >= 1 && int(atomic.LoadInt32(&s.maxCur)) > s.p.bound {
@@ -623,7 +623,7 @@ func (s *sess) finish(lg *capLogger) {
 	}
 	if !s.stopped {
 		s.p.tp.Stop()
-		quiesce.Wait(5 * time.Second)
+		quiesce.Wait(30 * time.Second)
 	}
 	current.Store((*sess)(nil))
 	e.Key(s.key.String(), s.nontriv || s.overload)
